@@ -252,7 +252,7 @@ class Built(object):
     pass
 
 
-def build(shape, body_idx, cond_idx, alphabet, conds, ret_block=True, loc_db=None, end_const=False):
+def build(shape, body_idx, cond_idx, alphabet, conds, ret_block=True, loc_db=None, end_const=False, merge_irdst=False):
     """Build a real IRCFG.  body_idx[i]: tuple of alphabet indexes for block i; cond_idx[i]: index into conds
     for blocks with two successors.  Returns an object with ircfg, lifter, arch, loc_db, locs, head."""
     from miasm.core.locationdb import LocationDB
@@ -274,7 +274,14 @@ def build(shape, body_idx, cond_idx, alphabet, conds, ret_block=True, loc_db=Non
             dst = m.ExprLoc(locs[succ[0]], 32)
         else:
             dst = m.ExprCond(cnd[cond_idx[i]][1], m.ExprLoc(locs[succ[0]], 32), m.ExprLoc(locs[succ[1]], 32))
-        blks.append(AssignBlock({A.IRDst: dst}))
+        if merge_irdst and blks:
+            # IRDst shares the last AssignBlock of the body (parallel semantics: the condition reads the values the
+            # registers had BEFORE that AssignBlock), the usual shape of lifted `loop` / `dec; jnz` / `call`
+            last = dict(blks[-1])
+            last[A.IRDst] = dst
+            blks[-1] = AssignBlock(last)
+        else:
+            blks.append(AssignBlock({A.IRDst: dst}))
         ircfg.add_irblock(IRBlock(loc_db, locs[i], blks))
     out = Built()
     out.ircfg, out.lifter, out.arch, out.loc_db, out.locs, out.head = ircfg, lifter, A, loc_db, locs, locs[0]
